@@ -5,7 +5,9 @@ import (
 	"errors"
 	"fmt"
 	"io"
+	"runtime"
 	"strings"
+	"sync"
 	"time"
 
 	tea "github.com/charmbracelet/bubbletea"
@@ -105,6 +107,10 @@ func implReaderX(chunks [][]byte, eof bool, failData []byte) (msgs []string, sta
 // context done). cancelled reports whether the reader returned the context's error. The
 // reads it issued after the cancellation are counted (readsAfterCancel must stay 0 or 1: the
 // Read in progress, never a further one after a message was refused).
+// aliasFindings: messages that changed after delivery, noticed by implReaderC (drained into the
+// stream's findings by streamReader)
+var aliasFindings []finding
+
 // readDelay: when non-zero, the scripted reader of the next implReader… call pauses this long before
 // every Read but the first (set and reset by the slow-link cases only; the streams are sequential)
 var readDelay time.Duration
@@ -137,6 +143,7 @@ func implReaderC(chunks [][]byte, eof bool, failData []byte, budget int) (msgs [
 			done <- "ok"
 		}
 	}()
+	var held []tea.Msg
 	recv := ch // the receiving side: nil once the cancellation has happened
 	if budget == 0 {
 		cancel()
@@ -152,11 +159,20 @@ func implReaderC(chunks [][]byte, eof bool, failData []byte, budget int) (msgs [
 		case m := <-recv:
 			d := tea.VerifDescribeMsg(m)
 			msgs = append(msgs, d)
+			held = append(held, m)
 			if budget >= 0 && len(msgs) >= budget {
 				cancel()
 				recv = nil // nothing is received any more
 			}
 		case st := <-done:
+			// a receiver may keep a message for as long as it likes: what it says must not change when
+			// the reader goes on (a message that shares memory with a buffer the reader reuses would)
+			for i, m := range held {
+				if now := tea.VerifDescribeMsg(m); now != msgs[i] && len(aliasFindings) < 3 {
+					aliasFindings = append(aliasFindings, finding{Class: "new", What: "a delivered message changed after it had been delivered (it shares memory with something the reader went on using)",
+						Input: readerLine(chunks, eof), Expected: msgs[i], Observed: now})
+				}
+			}
 			if rd.afterError {
 				return msgs, "read-after-error", false
 			}
@@ -1035,6 +1051,19 @@ func streamReader(c *corrOut, g *inputGen, r *rng, n int, thorough bool) {
 			c.addFinding(finding{Property: "C09", Class: "new", What: "reader " + st, Input: readerLine(chunks, eof), Observed: line})
 		}
 	}
+	twoReadersAtOnce(c, g, r, 6)
+	drainAliasFindings(c)
+}
+
+func drainAliasFindings(c *corrOut) {
+	for _, f := range aliasFindings {
+		for _, prop := range []string{"C08", "C09", "C10", "C11", "C15"} {
+			g := f
+			g.Property = prop
+			c.addFinding(g)
+		}
+	}
+	aliasFindings = nil
 }
 
 func cmdCorr(args []string) int {
@@ -1114,5 +1143,106 @@ func csiContentStable(c *corrOut) {
 	if at != want || later != want {
 		c.addFinding(finding{Property: "C09", Class: "new", What: "the content of a delivered message changed after delivery (it does not account for the bytes it consumed any more)",
 			Input: "reads: " + hexOf(seq) + " then " + hexOf(next), Expected: want, Observed: "at delivery: " + at + "; after the next read: " + later})
+	}
+}
+
+// twoReadersAtOnce: two input readers in one process (two programs), each fed its own long stream
+// in full 256-byte reads (events straddling the boundaries, pastes, mouse reports); reader A's
+// receiver is slow, B's is fast, and the scheduler gets every chance to switch between them. Each
+// reader's messages are exactly its own stream's events: nothing of what one reader holds back or
+// decodes is shared with the other (C09, C11, C15).
+func twoReadersAtOnce(c *corrOut, g *inputGen, r *rng, reps int) {
+	kr := g.doc.KeyRunes
+	runOne := func(chunks [][]byte, slow bool) []string {
+		cp := make([][]byte, len(chunks))
+		copy(cp, chunks)
+		rd := &scriptedReader{chunks: cp, final: io.EOF}
+		ch := make(chan tea.Msg)
+		done := make(chan struct{})
+		ctx, cancel := context.WithCancel(context.Background())
+		defer cancel()
+		go func() {
+			defer close(done)
+			defer func() { recover() }()
+			tea.VerifReadAnsiInputs(ctx, ch, rd)
+		}()
+		var msgs []string
+		timeout := time.After(10 * time.Second)
+		for {
+			select {
+			case m := <-ch:
+				msgs = append(msgs, tea.VerifDescribeMsg(m))
+				if slow {
+					runtime.Gosched()
+					time.Sleep(50 * time.Microsecond)
+				}
+			case <-done:
+				return msgs
+			case <-timeout:
+				return append(msgs, "stall")
+			}
+		}
+	}
+	for rep := 0; rep < reps; rep++ {
+		procs := 0
+		if rep%2 == 0 {
+			procs = runtime.GOMAXPROCS(1) // one thread: the two readers switch exactly where they block
+		}
+		mk := func(letter rune, rounds int) ([]event, [][]byte) {
+			// padding, then an event across the boundary, several times; then a paste across a boundary
+			var evs []event
+			for k := 0; k < rounds; k++ {
+				pad := make([]rune, 250+r.intn(5))
+				for i := range pad {
+					pad[i] = letter
+				}
+				evs = append(evs, g.evRunes(pad))
+				switch (k + int(letter)) % 3 {
+				case 0:
+					evs = append(evs, evSGR(35, 100+int(letter), 50+k, false), g.evDocKey(0, false))
+				case 1:
+					evs = append(evs, g.evDocKey(len(g.doc.Sequences)-1, false), evSGR(0, 49+k, 59, true))
+				default:
+					evs = append(evs, evUnknownCSI([]byte("12;3"), []byte("$"), 'y'), evX10(32, 40, 50))
+				}
+			}
+			payload := make([]byte, 300)
+			for i := range payload {
+				payload[i] = byte(letter)
+			}
+			evs = append(evs, g.evPaste(payload), evCtrl('\r', false))
+			return evs, fullReads(concatEvents(evs))
+		}
+		// B's stream is long: it keeps meeting boundaries for as long as the slow reader A lives
+		evsA, chA := mk('a', 3)
+		evsB, chB := mk('Z', 60)
+		var gotA, gotB []string
+		var wg sync.WaitGroup
+		wg.Add(2)
+		go func() { defer wg.Done(); gotA = runOne(chA, true) }()
+		go func() { defer wg.Done(); gotB = runOne(chB, false) }()
+		wg.Wait()
+		if procs != 0 {
+			runtime.GOMAXPROCS(procs)
+		}
+		for _, x := range []struct {
+			name string
+			got  []string
+			evs  []event
+		}{{"A (slow receiver)", gotA, evsA}, {"B", gotB, evsB}} {
+			want := strings.Join(expectedOf(x.evs, kr), " | ")
+			if got := strings.Join(x.got, " | "); got != want {
+				short := func(s string) string {
+					if len(s) > 200 {
+						return s[:120] + " … " + s[len(s)-60:]
+					}
+					return s
+				}
+				for _, prop := range []string{"C09", "C11", "C15"} {
+					c.addFinding(finding{Property: prop, Class: "new", What: "with two input readers in one process a reader's messages are not its own stream's events (something is shared between readers)",
+						Input: "reader " + x.name + ": three runs of 250 letters each followed by two events across the 256-byte boundary, then a 300-byte paste; the other reader gets the same shape with other letters", Expected: short(want), Observed: short(got)})
+				}
+			}
+		}
 	}
 }
